@@ -50,6 +50,7 @@ func zzTwoWrites() []zzWrite {
 
 // ZZH_C10_order: the same changes applied in a different order, with independent map
 // iteration orders, give the same root (also C01: flush determinism).
+// zz:also C01
 func ZZH_C10_order() {
 	ws := zzTwoWrites()
 	run := func(order int) []byte {
